@@ -357,7 +357,7 @@ func (prop) Generate(r *core.RNG, tier string) []json.RawMessage {
 		n = 6000
 	}
 	for i := 0; i < n; i++ {
-		g := &gen{r: r, out: r.Chance(10)}
+		g := &gen{r: r, out: r.Chance(14)}
 		depth := 1 + r.Intn(4)
 		if r.Chance(40) {
 			depth = 3 + r.Intn(2)
